@@ -7,7 +7,7 @@
 From Coq Require Import List Bool Arith.
 Import ListNotations.
 Require Import MV.Model.Orch MV.Proofs.OrchP MV.Model.Worker MV.Spec.WorkerSpec.
-Require Import MV.Proofs.WorkerP MV.Proofs.WorkerExitP MV.Proofs.WorkerRefP MV.Proofs.WorkerStaleP MV.Proofs.WorkerStreamP MV.Proofs.WorkerWitP.
+Require Import MV.Proofs.WorkerP MV.Proofs.WorkerExitP MV.Proofs.WorkerRefP MV.Proofs.WorkerStaleP MV.Proofs.WorkerStreamP MV.Proofs.WorkerLiveP MV.Proofs.WorkerWitP.
 
 Theorem Worker_wf_plan_ok : forall order p, wf_plan order p = true -> plan_ok p /\ NoDup (map sid p).
 Proof. exact wf_plan_ok. Qed.
@@ -218,6 +218,45 @@ Theorem Worker_undelivered_sound : forall c, plan_ok (cplan c) -> forall st, rea
   exists s, In s (cplan c) /\ sid s = x /\ collects s = true /\ In x (done (o st)) /\ incl (uuids s) (finished (o st)).
 Proof. exact undelivered_sound_l. Qed.
 Print Assumptions Worker_undelivered_sound.
+
+(* ================================================================================================================== *)
+(* (6) what the protocol never does.
+   (a) A step result that wait_for_drop_completion took from a result queue and put back (ORequeue) stays in the worker's
+   put-back lane until a POLL takes it: no other transition removes it - in particular a timed-out wait (OTimeout) changes
+   the program counter and nothing else.  Stated for one transition and for a whole trace. *)
+Theorem Worker_requeued_survive_timeout : forall c, plan_ok (cplan c) -> forall st, reach c st -> forall l st', step c st l = Some st' ->
+  forall w s, In s (requeued (ws st w)) ->
+  In s (requeued (ws st' w)) \/ exists taken, l = OPoll taken /\ In (w, RDone s) taken.
+Proof. exact step_requeued. Qed.
+Print Assumptions Worker_requeued_survive_timeout.
+
+Theorem Worker_requeued_until_polled : forall c, plan_ok (cplan c) -> forall tr st st', reach c st -> exec c st tr = Some st' ->
+  forall w s, In s (requeued (ws st w)) ->
+  In s (requeued (ws st' w)) \/ exists taken, In (OPoll taken) tr /\ In (w, RDone s) taken.
+Proof. exact exec_requeued. Qed.
+Print Assumptions Worker_requeued_until_polled.
+
+Theorem Worker_timeout_changes_only_pc : forall c st w st', step c st (OTimeout w) = Some st' ->
+  ws st' = ws st /\ o st' = o st /\ tasks st' = tasks st /\ flight st' = flight st /\ sent st' = sent st /\ replies st' = replies st /\
+  exists i, pc st = PWait i w /\ pc st' = PVisit (S i).
+Proof. exact timeout_keeps_l. Qed.
+Print Assumptions Worker_timeout_changes_only_pc.
+
+(* a put-back result is the success report of a step that does not count as done yet: the run cannot exit normally while
+   it is pending (so losing it would make the run spin for ever: every step must be done at a normal exit) *)
+Theorem Worker_requeued_pending : forall c, plan_ok (cplan c) -> forall st, reach c st -> forall w s, In s (requeued (ws st w)) ->
+  In (s, true) (replies st) /\ ~ In s (done (o st)) /\ xk (pc st) <> Some XNormal.
+Proof. exact requeued_pending_l. Qed.
+Print Assumptions Worker_requeued_pending.
+
+(* (b) A worker only ends by a failure of its step (WFail), a crash in its drop path (WDropCrash), its LAST drop
+   (WDropAck _ true _), terminate() in the finally block (OTerminate) or - THREADING, one thread per step - by finishing its
+   step (WDone).  There is no transition by which an idle worker gives up waiting for a command, however long the main
+   thread (e.g. suspended at a yield by a slow consumer) sends none.  No hypothesis about the plan. *)
+Theorem Worker_death_causes : forall c st, reach c st -> forall l st' w, step c st l = Some st' ->
+  dead (phase (ws st w)) = false -> dead (phase (ws st' w)) = true -> death_cause c w l.
+Proof. exact death_causes_l. Qed.
+Print Assumptions Worker_death_causes.
 
 (* ================================================================================================================== *)
 (* non-vacuity *)
